@@ -95,19 +95,27 @@ def _covering(gts, ci):
     return code % 17 == ci % 17
 
 
-def write_vcf(path, rows, layout, with_dp=False):
+def write_vcf(path, rows, layout, with_dp=False, unlisted=()):
+    """unlisted: column positions (in the final sample-column order) of extra samples that the population file does not mention - they are
+    documented to be skipped, wherever they stand"""
     names = []
     for p, k in enumerate(layout):
         for i in range(k):
             names.append('ind%d_%d' % (p, i))
+    cols = list(names)
+    for q, pos in enumerate(sorted(unlisted)):
+        cols.insert(pos, 'stranger%d' % q)
     with open(path, 'w') as f:
         f.write('##fileformat=VCFv4.2\n##source=verif\n')
-        f.write('#CHROM\tPOS\tID\tREF\tALT\tQUAL\tFILTER\tINFO\tFORMAT\t' + '\t'.join(names) + '\n')
-        for r in rows:
+        f.write('#CHROM\tPOS\tID\tREF\tALT\tQUAL\tFILTER\tINFO\tFORMAT\t' + '\t'.join(cols) + '\n')
+        for ri, r in enumerate(rows):
             ref, alt = allele_strings(r.alleles)
             info, _ = aa_field(r.aa)
             fmt = 'GT:DP' if with_dp else 'GT'
             samples = [(g + ':7') if with_dp else g for g in r.gts]
+            for q, pos in enumerate(sorted(unlisted)):
+                g = ('1/1', '0/1', './.', '0|0')[(ri + q) % 4]
+                samples.insert(pos, (g + ':7') if with_dp else g)
             f.write('\t'.join([r.chrom, str(r.pos), '.', ref, alt, '50', r.filt, info, fmt] + samples) + '\n')
     return names
 
@@ -196,7 +204,7 @@ def case_vcf(col, p):
     try:
         vcf = os.path.join(tmp, 'x.vcf')
         pop = os.path.join(tmp, 'pop.txt')
-        names = write_vcf(vcf, rows, layout, with_dp=p.get('dp', False))
+        names = write_vcf(vcf, rows, layout, with_dp=p.get('dp', False), unlisted=p.get('unlisted', ()))
         write_popinfo(pop, names, layout)
         dd = dadi.Misc.make_data_dict_vcf(vcf, pop)
         col.tick(transitions=len(rows))
@@ -246,7 +254,7 @@ def case_vcf(col, p):
         col.tick(states=len(rows), traces=len(projs) * 2)
     finally:
         shutil.rmtree(tmp, ignore_errors=True)
-    col.distinct('nontrivial', ('vcf', layout, p.get('dp', False)))
+    col.distinct('nontrivial', ('vcf', layout, p.get('dp', False), tuple(p.get('unlisted', ()))))
 
 
 def case_snpfile(col, p):
@@ -641,6 +649,10 @@ def run(ctx):
     for layout in ((2,), (3,), (2, 2), (1, 1, 1)) + (((2, 1, 1), (4,), (5,), (3, 2), (2, 3), (2, 2, 1), (1, 1, 1, 1)) if not ctx.quick else ()):
         cases.append({'kind': 'vcf', 'layout': layout})
     cases.append({'kind': 'vcf', 'layout': (2, 1), 'dp': True})
+    # samples the population file does not list, standing first, between and after the listed ones
+    for unl in ([0], [1], [2], [3], [0, 2], [1, 4]):
+        cases.append({'kind': 'vcf', 'layout': (2, 1), 'unlisted': unl})
+    cases.append({'kind': 'vcf', 'layout': (1, 2), 'unlisted': [1]})
     cases.append({'kind': 'snpfile'})
     for layout, sub in (((3,), (2,)), ((3,), (1,)), ((3,), (3,)), ((2, 2), (1, 2)), ((2, 2), (1, 1)), ((4,), (2,))) + ((((3, 2), (2, 1)), ((5,), (3,)), ((5,), (2,)), ((6,), (3,)), ((3, 3), (2, 2)), ((4, 2), (2, 1)), ((2, 2, 2), (1, 1, 1))) if not ctx.quick else ()):
         cases.append({'kind': 'subsample', 'layout': layout, 'subsample': sub})
